@@ -14,6 +14,7 @@ import gen_prog
 
 IMPORTS = 'From Bardolph Require Import Run.VmShow Run.SemShow Lang.Instr Lang.World Lang.Syntax Gen.Codes.'
 SEM_FUEL = 4000
+LONG_SEM_FUEL = 300
 VM_FUEL = 40000
 
 
@@ -112,7 +113,9 @@ def coq_eval(cases_obs, want_sem=True):
         long_run = obs.get('status') == 'FUEL'
         b += 'Eval vm_compute in (vm_case %d %s %s).\n' % (10 if long_run else VM_FUEL, prog, w)
         if want_sem:
-            b += 'Eval vm_compute in (sem_case %d %s %s).\n' % (3 if long_run else SEM_FUEL, case.coq, w)
+            # (the reference semantics still gets a modest budget: a script it finishes in a few hundred units and the
+            # implementation does not finish at all is a script that does not end)
+            b += 'Eval vm_compute in (sem_case %d %s %s).\n' % (LONG_SEM_FUEL if long_run else SEM_FUEL, case.coq, w)
         bodies.append(b)
         idxs.append(i)
     per = 4 if want_sem else 3
@@ -250,6 +253,18 @@ def compare_all(ctx, prop, cases, want_sem=True, do_shrink=True):
         if 'unsupported' in vm[0]:
             summary['unsupported'] += 1
             continue
+        if obs['status'] == 'FUEL' and want_sem:
+            sem = lang.canon_model_final(r[3])
+            if sem[0] == 'FIN' and len(sem[1]) < 2000:
+                # the reference semantics finishes the script within a small budget; does the implementation with a large one?
+                st2, evs2 = lang.run_program_impl(obs['program'], case.world, max_steps=VM_FUEL * 10)
+                if st2 == 'FUEL':
+                    rep = case.replay()
+                    rep['expected'] = [sem[0]] + sem[1][:30]
+                    rep['actual'] = ['no end within %d instructions' % (VM_FUEL * 10)] + evs2[:30]
+                    ctx.counterexample('%s/script-does-not-end' % prop, 'the script ends after %d events by its source, the implementation is still running after %d instructions: %s'
+                                       % (len(sem[1]), VM_FUEL * 10, case.text.strip().replace('\n', ' ; ')[:300]), rep)
+                    continue
         if vm[0].startswith('FUEL') or obs['status'] == 'FUEL':
             summary['fuel'] += 1
             continue
